@@ -142,9 +142,12 @@ def r2(idx, rep):
     rep.check(got == want, "R2", f"{ci.file}::OnError members", f"{got}", ci.file)
     # the ErrorCommsManager of a csvpath reads the csvpath policy
     fi = idx.method("ErrorCommsManager", "__init__")
-    src = unparse(fi.node)
-    rep.check("self._policy = csvpath.config.csvpath_errors_policy" in src and "self._policy = csvpaths.config.csvpaths_errors_policy" in src, "R2",
-              f"{fi.file}::ErrorCommsManager.__init__ policy source", "policy is not taken from the owner's config", K.where(fi, fi.node))
+    okp = True
+    for cp, cps, want in ((Obj("cp"), None, "cp.config.csvpath_errors_policy"), (None, Obj("cps"), "cps.config.csvpaths_errors_policy"), (Obj("cp"), Obj("cps"), "cp.config.csvpath_errors_policy")):
+        _, ps = K.sym_result(idx, "ErrorCommsManager", "__init__", args={"csvpath": cp, "csvpaths": cps})
+        pol = ps[0].final_store.get("self._policy") if len(ps) == 1 else None
+        okp = okp and isinstance(pol, Residual) and pol.text == want
+    rep.check(okp, "R2", f"{fi.file}::ErrorCommsManager.__init__ policy source", "the policy is not taken from the owner's config (the csvpath's when there is one)", K.where(fi, fi.node))
     from . import valmode
     valmode.check(idx, rep, "R2", ["print", "raise", "match", "stop", "fail"])
 
@@ -326,10 +329,11 @@ def r5(idx, rep):
     rep.check(bad is None, "R5", f"{fe.file}::Expression.matches table", bad or f"{n} paths", K.where(fe, fe.node))
     rep.stats["table_rows"] = rep.stats.get("table_rows", 0) + n
     # Matchable.handle_error forwards to the expression; Expression.handle_error appends
-    fh = idx.method("Expression", "handle_error")
-    rep.check("self.errors.append(error)" in unparse(fh.node), "R5", f"{fh.file}::Expression.handle_error appends", "", K.where(fh, fh.node))
-    fm = idx.method("Matchable", "handle_error")
-    rep.check("self.my_expression.handle_error(e)" in unparse(fm.node), "R5", f"{fm.file}::Matchable.handle_error forwards", "", K.where(fm, fm.node))
+    fh, ps = K.sym_result(idx, "Expression", "handle_error", args={"error": "E2"}, store={"self.errors": ["E1"]})
+    rep.check(len(ps) == 1 and ps[0].final_store.get("self.errors") == ["E1", "E2"], "R5", f"{fh.file}::Expression.handle_error appends", f"{ps[0].final_store.get('self.errors')}", K.where(fh, fh.node))
+    got = []
+    fm, ps = K.sym_result(idx, "Matchable", "handle_error", args={"e": "E"}, domains={"self.my_expression": [Obj("EXPR")]}, handlers={"EXPR.handle_error": lambda i, c, r, a, k: got.append(a[0])})
+    rep.check(got == ["E"], "R5", f"{fm.file}::Matchable.handle_error forwards to its expression", f"{got}", K.where(fm, fm.node))
     # Function.matches: after a trapped exception the function returns self.match, not an exception
     # Args.handle_errors_if: a full mismatch either raises ChildrenException (trapped above) or records it
     fa = idx.method("Args", "handle_errors_if")
@@ -384,4 +388,7 @@ def r6(idx, rep):
     rep.check(bad is None, "R6", f"{fb.file}::ErrorHandler.build records the line number", bad or f"{n} paths", K.where(fb, fb.node))
     # to_json exports line_count
     ft = idx.method("Error", "to_json", file_hint="util/error.py")
-    rep.check("'line_count': self.line_count" in unparse(ft.node), "R6", f"{ft.file}::Error.to_json exports line_count", "", K.where(ft, ft.node))
+    it = Interp(idx, types={"self": "Error"}, unknown_calls="residual")
+    ps = it.run_all(ft, store={"self.line_count": 7})
+    rj = ps[0].result[1] if len(ps) == 1 and ps[0].result[0] == "return" else {}
+    rep.check(isinstance(rj, dict) and rj.get("line_count") == 7, "R6", f"{ft.file}::Error.to_json exports line_count", f"{rj if not isinstance(rj, dict) else rj.get('line_count')}", K.where(ft, ft.node))
